@@ -48,7 +48,7 @@ func (*Segment).IsEmpty
 
 func (*Segment).TrimRightSpace
   requires validSeg(t, len(buffer))
-  ensures validSeg(result, len(buffer)) && result.Start == t.Start && result.Stop <= t.Stop
+  ensures validSeg(result, len(buffer)) && result.Start == t.Start && result.Stop <= t.Stop && !result.ForceNewline
   ensures forall k int :: result.Stop <= k && k < t.Stop ==> util.isSpace(buffer[k])
   ensures result.Stop > result.Start ==> (!util.isSpace(buffer[result.Stop-1]) && result.Padding == t.Padding)
   ensures result.Stop == result.Start ==> result.Padding == 0
@@ -56,7 +56,7 @@ func (*Segment).TrimRightSpace
 
 func (*Segment).TrimLeftSpace
   requires validSeg(t, len(buffer))
-  ensures validSeg(result, len(buffer)) && result.Stop == t.Stop && result.Start >= t.Start && result.Padding == 0
+  ensures validSeg(result, len(buffer)) && result.Stop == t.Stop && result.Start >= t.Start && result.Padding == 0 && !result.ForceNewline
   ensures forall k int :: t.Start <= k && k < result.Start ==> util.isSpace(buffer[k])
   ensures result.Start < result.Stop ==> !util.isSpace(buffer[result.Start])
   modifies nothing
